@@ -9,6 +9,7 @@ import (
 	"os"
 	"time"
 
+	"verif/harness/crashfs"
 	"verif/harness/h"
 )
 
@@ -45,6 +46,10 @@ func main() {
 	backup := fl.Bool("backup", false, "Backup calls with injected writers")
 	scans := fl.Bool("scans", false, "scans stepped call by call between writes")
 	alt := fl.Bool("alt", false, "alternate fs.OS and fs.OSMMap between sessions (C02)")
+	workers := fl.Int("workers", 4, "max worker goroutines (stress)")
+	maint := fl.Bool("maint", false, "maintenance goroutine (stress)")
+	closeMid := fl.Bool("closemid", false, "Close races with the workers (stress)")
+	bg := fl.Bool("bg", false, "background sync/compaction workers (stress)")
 	in := fl.String("in", "", "program file (ndjson) to replay instead of random programs")
 	fl.Parse(os.Args[2:])
 	t0 := time.Now()
@@ -153,6 +158,47 @@ func main() {
 			tot["keys"] += len(keys)
 			if i < 1 {
 				samples = append(samples, h.Ev{"id": p.ID, "cfg": p.Cfg, "keys": len(keys), "first_ops": p.Ops[:12]})
+			}
+		}
+		if err := rec.Close(); err != nil {
+			fatal(err)
+		}
+		tot["events"] = rec.Events
+		tot["recordings"] = rec.Recs
+		writeStats(*stats, tot, samples, t0)
+	case "stress":
+		// free-running concurrent histories (C07 linearizability, C10 races/faults/deadlock/Close)
+		ks := h.PinSeed(uint32(0x7f4a7c15 + *seed))
+		rec, err := h.NewRec(*out)
+		if err != nil {
+			fatal(err)
+		}
+		tot := map[string]int{}
+		var samples []interface{}
+		for i := 0; i < *n; i++ {
+			rng := rand.New(rand.NewSource(*seed*1000003 + int64(i)))
+			o := h.StressOpts{ID: fmt.Sprintf("stress-%s-%d-%d", *fsname, *seed, i), FS: *fsname,
+				Dir:     fmt.Sprintf("%s/st-%d-%d-%d", *dir, os.Getpid(), *seed, i),
+				Workers: 2 + rng.Intn(*workers-1), OpsEach: *nops, Keys: ks.InClass(1, uint32(i), *nkeys),
+				Maint: *maint, CloseMid: *closeMid && rng.Intn(2) == 0, BG: *bg && rng.Intn(2) == 0, Prefill: rng.Intn(2 * *nkeys),
+				Seed: *seed*7 + int64(i), MaxSeg: []uint32{1024, 4096, 1 << 20}[rng.Intn(3)]}
+			if *fsname == "crashfs" {
+				o.Root = crashfs.New()
+				o.Dir = "db"
+			} else {
+				o.Root = h.RootFS(*fsname)
+			}
+			r := h.Stress(rec, o)
+			tot["histories"]++
+			if r.Stuck {
+				tot["stuck"]++
+				break
+			}
+			if r.Leak {
+				tot["leak"]++
+			}
+			if i < 1 {
+				samples = append(samples, h.Ev{"id": o.ID, "workers": o.Workers, "ops_each": o.OpsEach, "keys": o.Keys, "maint": o.Maint, "closemid": o.CloseMid, "bg": o.BG})
 			}
 		}
 		if err := rec.Close(); err != nil {
